@@ -180,7 +180,8 @@ namespace glm
 			return mat<4, 4, T, Q>(static_cast<T>(1));
 
 		vec<3, T, Q> RotationAxis = cross(Up, Normal);
-		T Angle = acos(dot(Normal, Up));
+		// For nearly equal unit vectors the rounded dot product can exceed 1, and acos would return NaN
+		T Angle = acos(clamp(dot(Normal, Up), static_cast<T>(-1), static_cast<T>(1)));
 
 		return rotate(Angle, RotationAxis);
 	}
